@@ -1,6 +1,7 @@
 from __future__ import annotations
 
 import json
+from copy import copy
 from datetime import time
 from typing import Any, cast
 
@@ -51,6 +52,11 @@ class MySQLQueryBuilder(QueryBuilder):
             **kwargs,
         )
         self._modifiers: list[str] = []
+
+    def __copy__(self) -> "MySQLQueryBuilder":
+        newone = super().__copy__()
+        newone._modifiers = copy(self._modifiers)
+        return newone
 
     def _on_conflict_sql(self, ctx: SqlContext) -> str:
         ctx = ctx.copy(
